@@ -95,15 +95,16 @@ def validate(chk: Check, label, traces, infos, shards):
     chk.count(sum(len(t) for t in traces))
     seen = set()
     excluded = 0
-    classes = {}
+    classes, by_bytes = {}, {}
     for r in results:
         chk.add_tlc(r, "PassThrough_Trace " + label)
         for rec in r.printed():
             if isinstance(rec, dict) and "cls" in rec:
                 c = rec["cls"]
-                k = "%s/%s/%s%s%s" % (c["st"], c["status"], "canonical" if c["canon"] else "NON-canonical",
-                                      "/trailing-bytes" if c["rest"] else "", "/blocks-missing" if c["partial"] else "")
-                classes[k] = classes.get(k, 0) + 1
+                k = "%s/%s%s%s" % (c["status"], "canonical" if c["canon"] else "NON-canonical",
+                                   "/trailing-bytes" if c["rest"] else "", "/blocks-missing" if c["partial"] else "")
+                classes[c["st"] + "/" + k] = classes.get(c["st"] + "/" + k, 0) + 1
+                by_bytes[k] = by_bytes.get(k, 0) + 1
                 continue
             if not (isinstance(rec, dict) and "fail" in rec):
                 continue
@@ -129,10 +130,16 @@ def validate(chk: Check, label, traces, infos, shards):
         chk.cov["excluded_f32_snan_cases"] = chk.cov.get("excluded_f32_snan_cases", 0) + excluded
     # vacuity: every case of the property must have been re-encoded at least once
     chk.cov["reencodings_by_case_" + label] = dict(sorted(classes.items()))
-    for need in ("raw/ok/canonical", "raw/fail/canonical", "parsed/ok/canonical", "parsed/ok/NON-canonical", "failed/fail/canonical",
-                 "parsed/ok/canonical/trailing-bytes", "parsed/ok/canonical/blocks-missing"):
-        if not any(k == need for k in classes):
-            raise MachineryError("vacuous run: no re-encoding of case %s among the %s traces" % (need, label))
+    # (the datagram classes are decided by TLC from the bytes alone; the life-cycle state reached also depends on
+    # the implementation, so it is only demanded of a run that found nothing to report)
+    for need in ("ok/canonical", "ok/NON-canonical", "fail/canonical", "ok/canonical/trailing-bytes", "ok/canonical/blocks-missing"):
+        if need not in by_bytes:
+            raise MachineryError("vacuous run: no re-encoding of a datagram of class %s among the %s traces" % (need, label))
+    if not chk.violations and not chk.known_hits:
+        for need in ("raw/ok/canonical", "raw/fail/canonical", "parsed/ok/canonical", "parsed/ok/NON-canonical", "failed/fail/canonical",
+                     "parsed/ok/canonical/trailing-bytes", "parsed/ok/canonical/blocks-missing"):
+            if need not in classes:
+                raise MachineryError("vacuous run: no re-encoding of case %s among the %s traces" % (need, label))
 
 
 # ------------------------------------------------------------------------------------------
@@ -253,7 +260,7 @@ HISTORIES = [("R",), ("H", "R"), ("B", "R"), ("H", "B", "R"), ("B", "H", "R"), (
              ("B", "R", "R"), ("R", "H", "B", "R")]
 
 
-def real(chk: Check, per_template, shards, long_zero=4):
+def real(chk: Check, per_template, shards, long_zero=4, many_blocks=4):
     I = impl()
     rng = chk.rng
     pairs = c01.real_shapes(chk)
@@ -266,10 +273,10 @@ def real(chk: Check, per_template, shards, long_zero=4):
     def note(k):
         stats[k] = stats.get(k, 0) + 1
 
-    def one(shape, tmpl, maxlen=12, force_style=None):
-        hdr, bp, ty, _ = c01.gen_message(I, rng, shape, tmpl, counts=(0, 1, 1, 2), maxlen=maxlen,
+    def one(shape, tmpl, maxlen=12, force_style=None, counts=(0, 1, 1, 2), kinds=None):
+        hdr, bp, ty, _ = c01.gen_message(I, rng, shape, tmpl, counts=counts, maxlen=maxlen,
                                          hdr=dict(c01.gen_header(rng, rich=False), flags=0, acks=[]))
-        kind = rng.choice(["pristine", "pristine", "truncate", "extend", "drop-blocks", "flip", "truncate-z"])
+        kind = rng.choice(kinds or ["pristine", "pristine", "truncate", "extend", "drop-blocks", "flip", "truncate-z"])
         if force_style:
             kind = "pristine"
         if kind == "drop-blocks" and len(bp) >= 2:
@@ -337,6 +344,12 @@ def real(chk: Check, per_template, shards, long_zero=4):
             one(shape, tmpl, force_style=["wrap", "split", "canonical", "wrap"][k % 4])
         finally:
             c01.gen_bytes_field = saved
+    # large repeat counts (count byte >= 128) on templates with small Variable blocks
+    small_var = [(s, t) for s, t in pairs if any(b["kind"] == "Variable" and c01.inst_size(b) <= 8 for b in s["blocks"])
+                 and sum(c01.inst_size(b) for b in s["blocks"]) <= 60]
+    for k in range(many_blocks):
+        shape, tmpl = rng.choice(small_var)
+        one(shape, tmpl, maxlen=1, counts=(rng.choice([128, 129, 200, 255]),), kinds=["pristine", "pristine", "extend", "truncate"])
     chk.cov["real_scenarios"] = dict(sorted(stats.items()))
     if len(traces) < 100:
         raise MachineryError("only %d real scenarios could be built" % len(traces))
@@ -363,5 +376,5 @@ def run(chk: Check):
         real(chk, 2, shards=6)
     else:
         mini(chk, "{0, 1, 255}", 6, "{0, 128, 16, 144}", 3, 2, shards=14)
-        real(chk, 30, shards=14, long_zero=24)
+        real(chk, 30, shards=14, long_zero=24, many_blocks=40)
     chk.cov["exhaustive"] = True
